@@ -77,22 +77,12 @@ Lemma ser_ifpresent_eq e s c v :
   ser e (SIfPresent s) c v = if is_none v then Some [] else ser e s c v.
 Proof. destruct v; reflexivity. Qed.
 
-Definition frame_ser (e : bool) (k : tbk) (buf : bytes) : option bytes :=
-  match k with
-  | TBGreedy => Some buf
-  | TBArray ip => ser_bytearray e ip buf
-  | TBFixed n => ser_fixed n buf
-  | TBTerm ts => ser_term ts true buf
-  end.
-
 Lemma ser_typed_eq e k s en ct c v :
   ser e (STypedBytes k s en ct) c v =
   if en && is_none v then
-    match k with TBTerm _ => Some [] | _ => frame_ser e k [] end
+    match k with TBTerm _ true => Some [] | _ => frame_ser e k [] end
   else match ser e s c v with Some buf => frame_ser e k buf | None => None end.
-Proof.
-  cbn [ser]. destruct (en && is_none v); destruct k; reflexivity.
-Qed.
+Proof. reflexivity. Qed.
 
 Lemma frame_ser_ms e k buf out :
   frame_ser e k buf = Some out ->
@@ -166,12 +156,13 @@ Proof.
   - intros c v b Hs. cbn [ser min_size] in *.
     destruct v as [| | | | | | | |l|]; try discriminate.
     destruct l as [|t [|x [|? ?]]]; try discriminate.
-    destruct (aenc (AEnum tbl strict) t) as [[z| | | | | | | | |]|]; try discriminate.
+    destruct (aenc_s (AEnum tbl strict) t) as [[z| | | | | | | | |]|]; try discriminate.
     destruct (enc_int e ip z) as [h|] eqn:Eh; [|discriminate].
     destruct (find_choice Z.eqb z (map (fun cs' => (fst cs', ser e (snd cs') c)) cs)) as [f|];
       [|discriminate].
     destruct (f x); [|discriminate]. injection Hs as <-.
     apply enc_int_length in Eh. rewrite app_length, Eh, <- wbytes_wN. lia.
+  - intros c v b Hs. cbn [min_size]. lia.
 Qed.
 
 (* ---------- calc_size / exact_size ---------- *)
@@ -230,7 +221,8 @@ Proof.
     + destruct v; try discriminate;
         (destruct (N.of_nat (length b0) =? 16) eqn:E; [|discriminate]; injection Hs as <-; lia).
   - cbn [ser] in Hs. destruct v; try discriminate. eapply ser_seq_sz; eassumption.
-  - cbn [ser] in Hs. destruct v; try discriminate. eapply ser_fields_sz; eassumption.
+  - destruct rc; [discriminate|].
+    cbn [ser] in Hs. destruct v; try discriminate. eapply ser_fields_sz; eassumption.
   - cbn [ser] in Hs. destruct (aenc a v); [|discriminate]. eapply IHs; eassumption.
 Qed.
 
